@@ -12,7 +12,7 @@ import shutil
 import tempfile
 
 from harness.engine import Prop
-from harness.wire import to_wire, to_py
+from harness.wire import to_wire, to_py, to_py_shared
 from harness.props.c14 import C14, spec_meta, simple_pattern
 
 INC = '_tape_recorder_incomplete_recording'
@@ -131,7 +131,7 @@ def native_py(v):
 
 def fdict(f):
     """filter of a query as a FRESH Python dict (None when the query has none)"""
-    return None if f is None else to_py({'d': f})
+    return None if f is None else to_py_shared({'d': f})
 
 
 def effective_filter(q):
@@ -403,7 +403,9 @@ class C10(Prop):
             cases.append(c)
             c = self.rand_store(rng, p, n=5, cats=['Op', 'OpB'], native=True)
             c['queries'] = [mkq('Op', lim=0), mkq('OpB', lim=0, random=True, rot=1), mkq('Op', {}, 0, skip=True),
-                            mkq('Op', {'a': [None, 1, 'a*']}, 0, skip=False), mkq('Op'), mkq('OpB', lim=5), mkq('Op', lim=8)]
+                            mkq('Op', {'a': [None, 1, 'a*']}, 0, skip=False), mkq('Op'), mkq('OpB', lim=5), mkq('Op', lim=8),
+                            # one alternatives list used under two keys of the filter
+                            mkq('Op', {'a': [None, 1, 'a*'], 'zz': [None, 1, 'a*']}), mkq('OpB', {'zz': [False, None], 'yy': [False, None]}, skip=True)]
             cases.append(c)
         # one category stored, a prefix-related one queried
         for i, stored in enumerate(CATS):
